@@ -192,6 +192,8 @@ RAISE_SETS = {
     "datetime.timedelta": ["builtins.OverflowError", "builtins.TypeError", "builtins.ValueError"],
     "pathlib.PurePath": ["builtins.TypeError"],
     "enum.Enum": ["builtins.ValueError"],
+    # on *text*: malformed -> ValueError/SyntaxError; deep operator chains -> RecursionError; very long ones -> MemoryError
+    "ast.literal_eval": ["builtins.ValueError", "builtins.TypeError", "builtins.SyntaxError", "builtins.RecursionError", "builtins.MemoryError"],
 }
 
 
